@@ -12,6 +12,7 @@ import (
 	"encoding/json"
 	"fmt"
 	"math"
+	"strconv"
 	"strings"
 	"sync"
 	"time"
@@ -83,6 +84,7 @@ type gcase struct {
 	AnyNegEdge  bool          `json:"anynegedge"`
 	Src         []int         `json:"src"`        // src[s-1]: the node From() of a tree for source s must return
 	SelfAbsent  []selfRec     `json:"selfabsent"` // legal answers of Between(a, a) for the absent id a
+	Orders      [][]int64     `json:"orders"`     // tie-rich family: node orders for containers with a deterministic node order
 	Sink        []bool        `json:"sink"`
 	ZCyc        bool          `json:"zcyc"` // the graph has a zero-weight cycle
 	SP          [][][][]int64 `json:"sp"`
@@ -123,14 +125,18 @@ type checker struct {
 	kind  string
 	view  string
 	fails int
-	fromQ int // From() answers judged
+	tag   string // prefix of the signatures of a stage ("ties:")
+	nreps int    // repetitions of a randomised query (0: the default rule)
+	allQ  int    // finite all-shortest-paths answers compared with the spec's set
+	allP  int    // paths in them
+	fromQ int    // From() answers judged
 	selfQ int // answers to a -> a on the absent id judged
 }
 
 func (k *checker) fail(routine, what, f string, a ...any) {
 	k.fails++
 	cs := k.raw // the spec-emitted case verbatim: replayable alone
-	k.sum.Fail("path:"+routine+":"+what, fmt.Sprintf("[%s/%s ids=%v] ", k.kind, k.view, k.ids)+fmt.Sprintf(f, a...)+" graph n="+fmt.Sprint(k.c.N)+" e="+fmt.Sprint(k.c.E), cs)
+	k.sum.Fail("path:"+k.tag+routine+":"+what, fmt.Sprintf("[%s/%s ids=%v] ", k.kind, k.view, k.ids)+fmt.Sprintf(f, a...)+" graph n="+fmt.Sprint(k.c.N)+" e="+fmt.Sprint(k.c.E), cs)
 }
 
 func (k *checker) real(m int) int64 { return k.ids[m-1] }
@@ -225,6 +231,9 @@ func (k *checker) checkOneAlt(routine string, s, t int, p []graph.Node, w float6
 
 // reps: how often a randomised query is repeated.
 func (k *checker) reps() int {
+	if k.nreps > 0 {
+		return k.nreps
+	}
 	if k.c.ZCyc {
 		return 25
 	}
@@ -244,6 +253,8 @@ func (k *checker) checkAll(routine string, s, t int, ps [][]graph.Node, w float6
 		}
 		return
 	}
+	k.allQ++
+	k.allP += len(ps)
 	seen := map[string]bool{}
 	for _, p := range ps {
 		mp, ok := k.models(p)
@@ -745,10 +756,15 @@ func build(c *gcase, kind string, ids []int64) (graph.Graph, error) {
 		}
 		return g, nil
 	case "matrix":
-		for i := 0; i <= c.N; i++ {
-			if ids[i] != int64(i) {
-				return nil, fmt.Errorf("matrix kind needs ids 0..n")
+		seen := make([]bool, c.N)
+		for i := 0; i < c.N; i++ {
+			if ids[i] < 0 || ids[i] >= int64(c.N) || seen[ids[i]] {
+				return nil, fmt.Errorf("matrix kind needs a permutation of the ids 0..n-1")
 			}
+			seen[ids[i]] = true
+		}
+		if ids[c.N] != int64(c.N) {
+			return nil, fmt.Errorf("matrix kind needs the absent id n")
 		}
 		if c.N == 0 {
 			return nil, nil
@@ -812,6 +828,8 @@ func replaySmall(in *core.Lines, args []string, seed int64, sum *core.Summary) e
 	if err := json.Unmarshal([]byte(argOf(args, "ids", "[[1,2,3,4,5,6]]")), &idsets); err != nil {
 		return err
 	}
+	tag := argOf(args, "tag", "")                     // prefix of the signatures of the stage
+	nreps, _ := strconv.Atoi(argOf(args, "reps", "0")) // repetitions of the randomised queries (0: default)
 	nw := 8
 	type job struct {
 		line []byte
@@ -827,7 +845,7 @@ func replaySmall(in *core.Lines, args []string, seed int64, sum *core.Summary) e
 			defer wg.Done()
 			local := &core.Summary{Extra: map[string]any{}}
 			for j := range jobs {
-				if err := oneCase(j.line, j.n, kinds, views, idsets, local); err != nil {
+				if err := oneCase(j.line, j.n, kinds, views, idsets, tag, nreps, local); err != nil {
 					mu.Lock()
 					if firstErr == nil {
 						firstErr = err
@@ -862,7 +880,7 @@ func replaySmall(in *core.Lines, args []string, seed int64, sum *core.Summary) e
 	return firstErr
 }
 
-func oneCase(b []byte, lineNo int, kinds, views []string, idsets [][]int64, sum *core.Summary) error {
+func oneCase(b []byte, lineNo int, kinds, views []string, idsets [][]int64, tag string, nreps int, sum *core.Summary) error {
 	var c gcase
 	if err := json.Unmarshal(b, &c); err != nil {
 		return fmt.Errorf("line %d: %v", lineNo, err)
@@ -872,10 +890,31 @@ func oneCase(b []byte, lineNo int, kinds, views []string, idsets [][]int64, sum 
 	}
 	raw := json.RawMessage(b)
 	for _, kind := range kinds {
-		for _, ids := range idsets {
-			if kind == "matrix" {
-				ids = []int64{0, 1, 2, 3, 4, 5, 6, 7}
+		sets := idsets
+		if kind == "matrix" {
+			// a dense matrix enumerates its nodes in id order: the ids 0..n-1 in model order, or - tie-rich
+			// family - one binding per node order printed by the spec (model node m sits at position o[m])
+			id0 := make([]int64, c.N+1)
+			for i := range id0 {
+				id0[i] = int64(i)
 			}
+			sets = [][]int64{id0}
+			for oi, o := range c.Orders {
+				if len(o) != c.N {
+					return fmt.Errorf("line %d: order of length %d for %d nodes", lineNo, len(o), c.N)
+				}
+				ids := make([]int64, c.N+1)
+				for m := range o {
+					ids[m] = o[m] - 1
+				}
+				ids[c.N] = int64(c.N)
+				if oi == 0 {
+					sets = sets[:0]
+				}
+				sets = append(sets, ids)
+			}
+		}
+		for _, ids := range sets {
 			if len(ids) < c.N+1 {
 				return fmt.Errorf("need %d ids", c.N+1)
 			}
@@ -886,7 +925,7 @@ func oneCase(b []byte, lineNo int, kinds, views []string, idsets [][]int64, sum 
 			if g == nil {
 				continue
 			}
-			k := &checker{c: &c, raw: raw, sum: sum, ids: ids[:c.N+1], g: g, kind: kind, r2m: map[int64]int64{}}
+			k := &checker{c: &c, raw: raw, sum: sum, ids: ids[:c.N+1], g: g, kind: kind, r2m: map[int64]int64{}, tag: tag, nreps: nreps}
 			for i, id := range k.ids {
 				k.r2m[id] = int64(i + 1)
 			}
@@ -911,11 +950,10 @@ func oneCase(b []byte, lineNo int, kinds, views []string, idsets [][]int64, sum 
 				}
 				sum.Count("graph-runs", 1)
 			}
+			sum.Count("all-paths-sets", k.allQ)
+			sum.Count("all-paths-paths", k.allP)
 			sum.Count("from-queries", k.fromQ)
 			sum.Count("self-absent-queries", k.selfQ)
-			if kind == "matrix" {
-				break
-			}
 		}
 	}
 	sum.Cases++
